@@ -52,8 +52,9 @@ var (
 		{"X-Multi": {"1", "2"}},
 		{"X-Case": {"A"}, "x-case": {"b"}},
 		{"Host": {"virtual.example"}, "Content-Type": {"text/plain"}},
+		{"X-Vegeta-Seq": {"4711"}, "X-Vegeta-Attack": {"last-week"}}, // targets generated from the request log of an earlier attack
 	}
-	hdrNames  = []string{"none", "canonical", "lower-case-key", "same-key-twice", "keys-differ-in-case", "Host"}
+	hdrNames  = []string{"none", "canonical", "lower-case-key", "same-key-twice", "keys-differ-in-case", "Host", "own-X-Vegeta-headers"}
 	reqBodies = [][]byte{nil, []byte("hello")}
 	names     = []string{"", "n"}
 	statuses  = []int{200, 100, 199, 204, 299, 301, 399, 400, 404, 500, 599}
